@@ -795,9 +795,14 @@ def iter_not_end(cx, facts, R, recv):
         short = R[1].split("::")[-1]
         if short in ("insert", "emplace", "emplace_hint", "insert_or_assign", "try_emplace"):
             return True   # std contract: returns an iterator to the (inserted) element
-        if short == "operator+" and R[2] is not None and R[2][0] == "c" and str(R[2][1]).split("::")[-1] in ("begin", "cbegin") and len(R[3]) == 1:
-            C = R[2][2]
-            k = R[3][0]
+        base, karg = None, None
+        if short == "operator+" and R[2] is not None and len(R[3]) == 1:
+            base, karg = R[2], R[3][0]
+        elif short == "operator+" and R[2] is None and len(R[3]) == 2:
+            base, karg = R[3][0], R[3][1]
+        if base is not None and base[0] == "c" and str(base[1]).split("::")[-1] in ("begin", "cbegin") and base[2] is not None:
+            C = base[2]
+            k = karg
             while isinstance(k, tuple) and k[0] == "c" and k[1] in ("fcppt::cast::to_signed", "fcppt::cast::size") and len(k[3]) == 1:
                 k = k[3][0]
             while isinstance(k, tuple) and k[0] == "cast":
@@ -849,6 +854,8 @@ def partial_by_contract(fn):
     if "unsafe" in short:
         return "name contains 'unsafe'"
     rec = F.strip_targs(top.get("record") or "")
+    if rec == "fcppt::iterator::base":
+        return "iterator protocol member (fcppt::iterator::base forwards to the derived iterator's contract)"
     if short in ("dereference", "increment", "decrement", "advance", "distance_to", "equal") and rec.endswith("iterator"):
         return "iterator protocol member (contract of fcppt::iterator::base: valid, dereferenceable position)"
     if rec in FCPPT_STD_LIKE and short in ("front", "back", "pop_back", "pop_front", "operator[]", "erase", "release", "insert"):
@@ -899,5 +906,7 @@ def scan(db, functions, want=None):
                       "facts": [("" if pol else "!") + T.show(t) for (t, pol) in (facts if facts != EXIT else ())][:12]})
 
     for fn in functions:
+        if not fn["_unit"].file_of(fn["primary"]).startswith("libs/"):
+            continue  # driver / witness stubs are not library code
         walk_fn(db, fn, on_site)
     return sites
